@@ -4,8 +4,14 @@
 // Additional operation
 //   CONC [y=<seed>] [tick=<n>] <prog> <prog> ...      one <prog> per application thread (2..8; 1 is allowed)
 //        prog  = call ('+' call)*  |  '-' (empty program)
-//        call  = S:<msgspec>                 Session::send(Message*, true, custom, no_increment)
-//              | B:<msgspec>(;<msgspec>)*    Session::send_batch(vector, true)
+//        call  = S:<msgspec>                 Session::send(Message*, destroy = true, custom, no_increment)
+//              | P:<msgspec>                 Session::send(Message*, destroy = false, custom, no_increment)
+//              | R:<msgspec>                 Session::send(Message&, custom, no_increment)   -- the by-reference overload
+//              | B:<msgspec>(;<msgspec>)*    Session::send_batch(vector, destroy = true)
+//              | C:<msgspec>(;<msgspec>)*    Session::send_batch(vector, destroy = false)
+//        = every public send entry point of Session.  Who deletes the message: fix8 for S and B; the thread itself
+//        after the call for R, and for P / C unless pipelining (pm_pipeline "ignores the destroy flag": the writer
+//        thread deletes what it has sent).  R throws f8Exception while pipelining: the return value is X.
 //        All messages are built first (main thread); then one REAL std::thread per program is started, the
 //        threads meet at a barrier and run their calls against the same session.  y=<seed> makes every thread
 //        yield / spin at pseudo-random points (only to vary the schedules the OS produces); tick=<n> starts one
@@ -79,6 +85,7 @@ namespace {
 
 struct Call
 {
+	char kind = 'S';          // S P R B C
 	bool batch = false;
 	std::vector<Message *> msgs;
 	unsigned custom = 0;
@@ -154,10 +161,11 @@ protected:
 			{
 				for (const auto& cs : split(tok, '+'))
 				{
-					if (cs.size() < 2 || cs[1] != ':' || (cs[0] != 'S' && cs[0] != 'B'))
+					if (cs.size() < 2 || cs[1] != ':' || std::string("SPRBC").find(cs[0]) == std::string::npos)
 						throw std::invalid_argument("call");
 					Call c;
-					c.batch = cs[0] == 'B';
+					c.kind = cs[0];
+					c.batch = cs[0] == 'B' || cs[0] == 'C';
 					if (!c.batch)
 						c.msgs.push_back(build(cs.substr(2), c.custom, c.noinc));
 					else
@@ -177,7 +185,9 @@ protected:
 			progs.push_back(prog);
 		}
 		unsigned long total(0);
-		for (const auto& p : progs) for (const auto& c : p) total += c.msgs.size();
+		for (const auto& p : progs) for (const auto& c : p)
+			if (!(c.kind == 'R' && _p.pm == pm_pipeline))      // throws while pipelining: nothing is queued
+				total += c.msgs.size();
 		const unsigned before(_ss->next_send());
 		const unsigned long frames0(count_out());
 
@@ -202,14 +212,22 @@ protected:
 					else if (k < 5) { for (volatile unsigned j(0); j < ((x >> 8) & 1023u); ++j) {} }
 				}
 				std::string r;
+				const bool pipe(_p.pm == pm_pipeline);
+				bool mine(false);        // the thread deletes the messages after the call
 				try
 				{
-					if (c.batch)
-						r = std::to_string(ss->send_batch(c.msgs, true));
-					else
-						r = ss->send(c.msgs[0], true, c.custom, c.noinc) ? "1" : "0";
+					switch (c.kind)
+					{
+					case 'B': r = std::to_string(ss->send_batch(c.msgs, true)); break;
+					case 'C': mine = !pipe; r = std::to_string(ss->send_batch(c.msgs, false)); break;
+					case 'P': mine = !pipe; r = ss->send(c.msgs[0], false, c.custom, c.noinc) ? "1" : "0"; break;
+					case 'R': mine = true; r = ss->send(*c.msgs[0], c.custom, c.noinc) ? "1" : "0"; break;
+					default: r = ss->send(c.msgs[0], true, c.custom, c.noinc) ? "1" : "0"; break;
+					}
 				}
 				catch (...) { r = "X"; }
+				if (mine)
+					for (Message *m : c.msgs) delete m;
 				if (!out.empty()) out += ',';
 				out += r;
 			}
